@@ -9,6 +9,7 @@ import (
 	"errors"
 	"io"
 	"net"
+	"sync"
 	"time"
 
 	"github.com/pion/logging"
@@ -69,6 +70,7 @@ type RemoteOpen struct {
 
 // Association is the fake association.
 type Association struct {
+	mu       sync.Mutex // makes the fake usable by free-running goroutines; critical sections never block
 	aborted  bool
 	incoming []RemoteOpen
 }
@@ -110,17 +112,37 @@ func (a *Association) Metadata() (AssociationMetadata, bool) {
 }
 
 // Abort closes the association: every blocked reader and Accept returns an error.
-func (a *Association) Abort(string) { a.aborted = true }
+func (a *Association) Abort(string) {
+	a.mu.Lock()
+	a.aborted = true
+	a.mu.Unlock()
+}
 
 // Close closes the association.
-func (a *Association) Close() error { a.aborted = true; return nil }
+func (a *Association) Close() error {
+	a.Abort("")
+
+	return nil
+}
 
 // Aborted reports whether the association was aborted/closed.
-func (a *Association) Aborted() bool { return a.aborted }
+func (a *Association) Aborted() bool {
+	a.mu.Lock()
+	defer a.mu.Unlock()
+
+	return a.aborted
+}
 
 // AcceptOpen blocks until the remote side opened a stream (EnvRemoteOpen) or the association is gone.
 func (a *Association) AcceptOpen() (RemoteOpen, error) {
-	Hooks.Wait("sctp-accept", func() bool { return a.aborted || len(a.incoming) > 0 })
+	Hooks.Wait("sctp-accept", func() bool {
+		a.mu.Lock()
+		defer a.mu.Unlock()
+
+		return a.aborted || len(a.incoming) > 0
+	})
+	a.mu.Lock()
+	defer a.mu.Unlock()
 	if len(a.incoming) > 0 {
 		o := a.incoming[0]
 		a.incoming = a.incoming[1:]
@@ -132,4 +154,8 @@ func (a *Association) AcceptOpen() (RemoteOpen, error) {
 }
 
 // EnvRemoteOpen is an environment event: the remote side opens a stream.
-func (a *Association) EnvRemoteOpen(o RemoteOpen) { a.incoming = append(a.incoming, o) }
+func (a *Association) EnvRemoteOpen(o RemoteOpen) {
+	a.mu.Lock()
+	a.incoming = append(a.incoming, o)
+	a.mu.Unlock()
+}
